@@ -182,8 +182,10 @@ class LogicalType(type):  # noqa
         args = []
         resolved = False
         for i, arg in enumerate(cls.args):
-            arg, resolved = resolve_forward_type(arg)
-            if resolved:
+            arg, arg_resolved = resolve_forward_type(arg)
+            if arg_resolved:
+                # remember that *some* argument was resolved (not only whether the last one was)
+                resolved = True
                 arg = cls._parse_arg(arg)
             args.append(arg)
         if resolved:
